@@ -7,6 +7,7 @@ mod c02;
 mod c03;
 mod c06;
 mod c10;
+mod c11;
 mod c13;
 mod c14;
 mod c15;
@@ -42,6 +43,8 @@ fn main() {
         "c03" => c03::run(&args),
         "c06" => c06::run(&args),
         "c10" => c10::run(&args),
+        "c11" => c11::run(&args),
+        "c11-child" => c11::run_child(&args),
         "c13" => c13::run(&args),
         "c14" => c14::run(&args),
         "c15" => c15::run(&args),
